@@ -15,18 +15,37 @@ def parse_roots():
     return [int(v, 0) for v in vals]
 
 
+NVEC = 6
+
+
+def base_vectors(rng, d):
+    """v0: seeded words in mixed representations; v1..: structured vectors that drive the butterfly data path through
+    its boundary values (a delta of 2^64-1 keeps every intermediate word at 2^64-1; p-1 / 2^32-1 pairs sum to 2^64-1; ...)"""
+    n = 1 << d
+    M = 2**64
+    vs = [[rng.word() for _ in range(n)]]
+    vs.append([M - 1] + [0] * (n - 1))
+    vs.append([P - 1] * n)
+    vs.append([(P - 1) if j % 2 == 0 else (2**32 - 1) for j in range(n)])
+    v4 = [0] * n; v4[n // 2] = P; v4[0] = P - 1 if n > 1 else P
+    vs.append(v4)
+    vs.append([M - 1] * n)
+    return vs[:NVEC]
+
+
 def make_inputs(wd, seed, maxd, maxcols=8):
     rng = vlib.Rng(seed ^ 0x177)
     X = []
     for d in range(maxd + 1):
-        X.append([rng.word() for _ in range(1 << d)])
+        X.append(base_vectors(rng, d))
     M = [1, 3, P - 2, 0x123456789ABCDEF, 7, 2**32, P - 1, 0xFFFFFFFF][:maxcols]
     W = parse_roots()
     with open(os.path.join(wd, 'ntt_inputs.txt'), 'w') as f:
-        for d, xs in enumerate(X):
-            f.write('X %d %s\n' % (d, ' '.join('0x%x' % x for x in xs)))
+        for d, vs in enumerate(X):
+            for v, xs in enumerate(vs):
+                f.write('X %d %d %s\n' % (d, v, ' '.join('0x%x' % x for x in xs)))
         f.write('M %d %s\n' % (len(M), ' '.join('0x%x' % m for m in M)))
-    json.dump(dict(maxd=maxd, W=[vlib.w64(w) for w in W], X=[[vlib.w64(x) for x in xs] for xs in X], M=[vlib.w64(m) for m in M]),
+    json.dump(dict(maxd=maxd, nv=NVEC, W=[vlib.w64(w) for w in W], X=[[[vlib.w64(x) for x in xs] for xs in vs] for vs in X], M=[vlib.w64(m) for m in M]),
               open(os.path.join(wd, 'ntt_inputs.json'), 'w'))
     return X, M, W
 
@@ -52,7 +71,7 @@ def enum_cases(calls, smax, tier, seed, sub=1):
                             continue
                         cid += 1
                         nth = [1, 2, 3, 8][(k // 3) % 4]
-                        cases.append((cid, call, S, d, e, nc, nph, nb, dst, buf, nth))
+                        cases.append((cid, call, S, d, e, nc, nph, nb, dst, buf, nth, k % NVEC))
                     # wider matrices with uneven column blocks (ncols % nblock != 0, 2*ceil(ncols/nblock) <= ncols, ...)
                     if S <= 3:
                         for nc, nb in [(5, 2), (5, 3), (5, 4), (8, 3), (8, 5), (7, 2), (4, 3), (4, 2), (6, 4)]:
@@ -62,11 +81,11 @@ def enum_cases(calls, smax, tier, seed, sub=1):
                                         continue
                                     k += 1
                                     cid += 1
-                                    cases.append((cid, call, S, d, e, nc, nph, nb, dst, buf, [1, 2, 3, 8][k % 4]))
+                                    cases.append((cid, call, S, d, e, nc, nph, nb, dst, buf, [1, 2, 3, 8][k % 4], k % NVEC))
                     # zero columns: a no-op for every mode
                     for dst in ['same', 'other']:
                         cid += 1
-                        cases.append((cid, call, S, d, e, 0, 3, 1, dst, 'null', 2))
+                        cases.append((cid, call, S, d, e, 0, 3, 1, dst, 'null', 2, 0))
     return cases
 
 
@@ -225,7 +244,7 @@ def big_replay(ck, wd, calls, seed, tier):
     inp = os.path.join(wd, 'nttbig_inputs.txt')
     with open(inp, 'w') as f:
         for d in sorted(need_x):
-            f.write('X %d %s\n' % (d, ' '.join('0x%x' % x for x in X[d])))
+            f.write('X %d 0 %s\n' % (d, ' '.join('0x%x' % x for x in X[d])))
         f.write('M %d %s\n' % (len(M), ' '.join('0x%x' % m for m in M)))
         for d in sorted(need_k):
             f.write('K %d %s\n' % (d, ' '.join(str(k) for k in K[d])))
